@@ -238,11 +238,8 @@ Proof.
   unfold show_summary. destruct (lo_quiet o || lo_autofix o); [reflexivity|].
   set (l1 := if lo_show_source o then out_separate l else l).
   assert (core l1 = core l) as H1 by (unfold l1; destruct (lo_show_source o); [apply core_out_separate|reflexivity]).
-  set (l2 := if negb (l_errors l1 =? 0) || negb (l_warnings l1 =? 0)
-             then out_write l1 (summary_counts (l_errors l1) (l_warnings l1) (l_notes l1))
-             else out_write_line l1 [76; 111; 111; 107; 115; 32; 102; 105; 110; 101; 46]).
-  assert (core l2 = core l) as H2.
-  { unfold l2. destruct (negb (l_errors l1 =? 0) || negb (l_warnings l1 =? 0)); rewrite ?core_out_write, ?core_out_write_line; assumption. }
+  set (l2 := out_write l1 _).
+  assert (core l2 = core l) as H2 by (unfold l2; rewrite core_out_write; assumption).
   clearbody l2. clear l1 H1.
   set (l3 := if l_expl_avail l2 && negb (lo_explain o) then hint l2 args _ _ else l2).
   assert (core l3 = core l) as H3.
